@@ -842,6 +842,98 @@ pub async fn c16_failures(account: &LocalAccount) -> Result<Vec<String>> {
     Ok(failures)
 }
 
+/// Failures of the external file integrity report (None = the report did
+/// not complete within the time limit).
+async fn file_failures(
+    account: &LocalAccount,
+    files: indexmap::IndexSet<sos_core::ExternalFile>,
+) -> Result<Option<Vec<String>>> {
+    use sos_integrity::{file_integrity, FileIntegrityEvent};
+    let target = account.backend_target().await;
+    let (mut rx, _cancel) = file_integrity(&target, files, 2).await?;
+    let mut failures = Vec::new();
+    let collect = async {
+        while let Some(ev) = rx.recv().await {
+            match ev {
+                FileIntegrityEvent::Failure(file, f) => failures.push(format!("{file}: {f:?}")),
+                FileIntegrityEvent::Complete => return true,
+                _ => {}
+            }
+        }
+        true
+    };
+    match tokio::time::timeout(std::time::Duration::from_secs(20), collect).await {
+        Ok(_) => Ok(Some(failures)),
+        Err(_) => Ok(None),
+    }
+}
+
+/// C16 for external file blobs: the report of an untampered account is
+/// clean; a change of any single byte of a blob, or its removal, is a
+/// failure for that file.
+pub async fn c16_files(
+    dev: &mut Device,
+    every: bool,
+    out: &mut Summary,
+    problems: &mut Vec<String>,
+) -> Result<()> {
+    use sos_sync::StorageEventLogs;
+    let backend = dev.label;
+    // (observation, not part of the property: file_integrity over an empty set
+    // of files never sends Complete; the harness therefore never asks for it)
+    dev.add_attachments(out).await?;
+    let files = dev.account.canonical_files().await?;
+    if files.is_empty() {
+        return Err(anyhow!("no external files after adding attachments"));
+    }
+    match file_failures(&dev.account, files.clone()).await? {
+        None => problems.push(format!("{backend}: the file integrity report does not complete")),
+        Some(f) if !f.is_empty() => {
+            problems.push(format!("{backend}: file integrity report of an untampered account: {f:?}"))
+        }
+        _ => {}
+    }
+    out.count("file_integrity_reports", 1);
+    let paths = dev.account.paths();
+    for file in files.iter() {
+        let path = paths.into_file_path(file);
+        let orig = std::fs::read(&path)?;
+        let positions: Vec<usize> = if every {
+            let step = (orig.len() / 24).max(1);
+            (0..orig.len()).step_by(step).chain([orig.len() - 1]).collect()
+        } else {
+            vec![0, orig.len() / 2, orig.len() - 1]
+        };
+        for pos in positions {
+            let mut bytes = orig.clone();
+            bytes[pos] ^= 0x01;
+            std::fs::write(&path, &bytes)?;
+            out.count("blob_corruptions", 1);
+            match file_failures(&dev.account, files.clone()).await? {
+                None => problems.push(format!("{backend}: the file integrity report does not complete on a corrupted blob")),
+                Some(f) if !f.iter().any(|x| x.contains(&file.file_name().to_string())) => problems.push(format!(
+                    "{backend}: flipping byte {pos} of blob {file} is not reported by the file integrity check (failures: {f:?})"
+                )),
+                Some(f) if f.len() > 1 => problems.push(format!(
+                    "{backend}: corrupting one blob reported failures for other files too: {f:?}"
+                )),
+                _ => {}
+            }
+        }
+        std::fs::remove_file(&path)?;
+        out.count("blob_removals", 1);
+        match file_failures(&dev.account, files.clone()).await? {
+            None => problems.push(format!("{backend}: the file integrity report does not complete when a blob is missing")),
+            Some(f) if !f.iter().any(|x| x.contains(&file.file_name().to_string())) => problems.push(format!(
+                "{backend}: removing blob {file} is not reported by the file integrity check"
+            )),
+            _ => {}
+        }
+        std::fs::write(&path, &orig)?;
+    }
+    Ok(())
+}
+
 fn find_sub(hay: &[u8], needle: &[u8]) -> Option<usize> {
     if needle.is_empty() || needle.len() > hay.len() {
         return None;
@@ -1203,6 +1295,9 @@ pub async fn run_path(
                     }
                     if n + 1 == steps.len() && v.is_empty() && path["corrupt"] != "none" {
                         c16_corruptions(dev, path["corrupt"] == "every", out, &mut v).await?;
+                        if v.is_empty() {
+                            c16_files(dev, path["corrupt"] == "every", out, &mut v).await?;
+                        }
                     }
                     if !problems.is_empty() && v.is_empty() {
                         out.count("aborted_paths_state_divergence", 1);
